@@ -307,6 +307,9 @@ func lockIdiom(p *Prog, f *ssa.Function, key, lock, unlock string) (bool, string
 	var first ssa.CallInstruction
 	for _, in := range f.Blocks[0].Instrs {
 		if ci, ok := in.(ssa.CallInstruction); ok {
+			if isLogCall(ci) {
+				continue
+			}
 			first = ci
 			break
 		}
